@@ -415,6 +415,8 @@ theorem apiSubscribe_inv {w : World} (h : WInv w) (p : Nat) (arg : SubArg) (qos 
         simp only []
         split
         · exact ⟨rfl, emit_inv h _⟩
+        split
+        · exact ⟨rfl, emit_inv h _⟩
         · rw [makeId_apply]
           have hi := C17.scanId_range w w.nextId
           have hfr := C17.scanId_fresh w w.nextId h.idCounter hfree
@@ -449,6 +451,8 @@ theorem apiUnsubscribe_inv {w : World} (h : WInv w) (p : Nat) (arg : UnsubArg) (
       | other => exact ⟨rfl, emit_inv h1' _⟩
       | _ =>
         simp only []
+        split
+        · exact ⟨rfl, emit_inv h1' _⟩
         rw [makeId_apply]
         have hi := C17.scanId_range w1 w1.nextId
         have hfr := C17.scanId_fresh w1 w1.nextId h1'.idCounter hfree1
